@@ -14,7 +14,7 @@ SPEC = {
             "own asserts off: an invalid candidate is returned instead of raising); with asserts on an AssertionError out of "
             "existential_helpers.py is the same violation. A slice of the budget runs ISLa's solver on existential constraint families with insert_tree wrapped and judges the calls the solver itself makes (in situ). distinct = distinct (grammar, host shape, inserted label, methods)",
     "minimum": {"quick": {"calls": 800, "results_judged": 3000, "calls_with_results": 300, "results_judged_under_O": 800, "results_judged_in_situ": 15},
-                "thorough": {"calls": 40000, "results_judged": 80000, "results_judged_under_O": 20000}},
+                "thorough": {"calls": 12000, "results_judged": 80000, "results_judged_under_O": 20000}},
     "assumptions": ["R1 validity; ids unique in every generated host/inserted tree"],
 }
 
